@@ -14,9 +14,9 @@ name=$(basename $(dirname "$M"))-$(basename "$M")
 WT=/tmp/seedwt-$name-$$
 OUT=/tmp/seedout-$name-$$
 flock /tmp/seedtest.lock git -C /repo worktree add -q --detach $WT HEAD || exit 2
-cleanup() { flock /tmp/seedtest.lock git -C /repo worktree remove --force $WT 2>/dev/null; rm -rf $OUT $V/.bin/alt-$(echo "$WT" | md5sum | cut -c1-12); }
+cleanup() { rm -f $OUT.*.log; flock /tmp/seedtest.lock git -C /repo worktree remove --force $WT 2>/dev/null; rm -rf $OUT $V/.bin/alt-$(echo "$WT" | md5sum | cut -c1-12); }
 trap cleanup EXIT
-suite() { local rc=0; for m in bigtable storage; do (cd $WT/$m && go build ./... && go test -vet=off -count=1 -timeout 25m ./... > $OUT.$m.log 2>&1) || rc=1; done; return $rc; }
+suite() { local rc=0; mkdir -p $OUT/tmp; for m in bigtable storage; do (export TMPDIR=$OUT/tmp; cd $WT/$m && go build ./... && go test -vet=off -count=1 -timeout 25m ./... > $OUT.$m.log 2>&1) || rc=1; done; return $rc; }
 demo() { # copies demo files in, runs, removes them; returns go test status
   local rc=0 pkg="" pat="."
   while read -r a rest; do
@@ -26,7 +26,8 @@ demo() { # copies demo files in, runs, removes them; returns go test status
       *) pkg=$a; for f in $rest; do cp "$M/$f" "$WT/$pkg/zz_demo_$(basename $f)"; done ;;
     esac
   done < "$M/demo.txt"
-  (cd $WT/$pkg && go test -vet=off -count=1 -timeout 10m -run "$pat" . > $OUT.demo.log 2>&1) || rc=1
+  mkdir -p $OUT/tmp
+  (export TMPDIR=$OUT/tmp; cd $WT/$pkg && go test -vet=off -count=1 -timeout 10m -run "$pat" . > $OUT.demo.log 2>&1) || rc=1
   rm -f $WT/$pkg/zz_demo_*
   return $rc
 }
